@@ -6,6 +6,7 @@ package life
 
 import (
 	"context"
+	"crypto/tls"
 	"encoding/json"
 	"errors"
 	"flag"
@@ -43,12 +44,13 @@ type Scenario struct {
 	ConnectUp bool     `json:"connect_while_up"` // call Connect while connected (must be refused, harmlessly)
 	Storm     bool     `json:"storm"`            // many quick cycles of coinciding causes (no settle time between them)
 	Calls     string   `json:"calls"`            // what the handlers call while the disconnect is in progress: "" | me | connected
+	FailFirst string   `json:"fail_first"`       // "" | dial | tls: a Connect that fails (dial error, TLS handshake failure) precedes the session
 	DiscClose bool     `json:"disc_close"`       // the DISCONNECTED handler calls Close(): the client is not connected, it must do nothing (and return)
 }
 
 func (s Scenario) Key() string {
 	return fmt.Sprintf("in=%s out=%s/%s handler=%s causes=%s flood=%v reconnect=%s up=%v calls=%s",
-		backlogClass(s.In), backlogClass(s.Out), s.OutBy, s.Handler, strings.Join(s.Causes, "+"), s.Flood, s.Reconnect, s.ConnectUp, s.Calls) + map[bool]string{true: " storm", false: ""}[s.Storm] + map[bool]string{true: " disc-close", false: ""}[s.DiscClose]
+		backlogClass(s.In), backlogClass(s.Out), s.OutBy, s.Handler, strings.Join(s.Causes, "+"), s.Flood, s.Reconnect, s.ConnectUp, s.Calls) + map[bool]string{true: " storm", false: ""}[s.Storm] + map[bool]string{true: " disc-close", false: ""}[s.DiscClose] + map[bool]string{true: " after-failed-" + s.FailFirst, false: ""}[s.FailFirst != ""]
 }
 
 var qcap = 32
@@ -206,6 +208,56 @@ func (r *runner) connect() error {
 	return r.s.Connect()
 }
 
+// failedConnect makes one Connect fail after the "already connected" test - the dial is refused, or the
+// TLS handshake fails on a socket that was dialled successfully - and checks that it left nothing behind:
+// no event, Connected() false, Close() a no-op.
+func (r *runner) failedConnect() bool {
+	s := r.s
+	switch r.sc.FailFirst {
+	case "dial":
+		s.Net.OnDial = func(string) (*fakenet.Conn, error) { return nil, errors.New("fakenet: connection refused") }
+	case "tls":
+		s.Cfg.SSL = true
+		s.Cfg.SSLConfig = &tls.Config{InsecureSkipVerify: true}
+		s.Net.OnDial = func(string) (*fakenet.Conn, error) {
+			c := fakenet.NewConn()
+			c.SendLines(":irc.example.net NOTICE * :this server does not speak TLS")
+			c.EOF()
+			return c, nil
+		}
+	}
+	err := r.connect()
+	s.Net.OnDial = nil
+	s.Cfg.SSL = false
+	if err == nil {
+		r.res.Skipped = "the connect that should fail succeeded"
+		return false
+	}
+	if s.C.Connected() {
+		r.problem("C06", "failed-connect-left-connected", "Connected() is true after a Connect that failed with: "+err.Error())
+	}
+	done := make(chan struct{})
+	go func() { s.C.Close(); close(done) }()
+	select {
+	case <-done:
+	case <-time.After(r.deadline):
+		r.problem("C06", "close-after-failed-connect-blocks", "Close() after a failed Connect did not return")
+		return false
+	}
+	time.Sleep(20 * time.Millisecond)
+	if n := atomic.LoadInt32(&r.reg); n != 0 {
+		r.problem("C06", "failed-connect-fired-event", fmt.Sprintf("REGISTER dispatched %d times by a Connect that failed", n))
+	}
+	if n := atomic.LoadInt32(&r.disc); n != 0 {
+		r.problem("C06", "failed-connect-fired-event", fmt.Sprintf("DISCONNECTED dispatched %d times although the client never connected (Connect had failed, then Close was called)", n))
+		atomic.StoreInt32(&r.disc, 0)
+		for len(r.discCh) > 0 {
+			<-r.discCh
+		}
+	}
+	return len(r.res.Problems) == 0
+}
+
 func contains(l []string, x string) bool {
 	for _, y := range l {
 		if y == x {
@@ -298,7 +350,14 @@ func Run(sc Scenario, seed int64) *Result {
 		r.apiCalls(c)
 	})
 
+	if sc.FailFirst != "" && !r.failedConnect() {
+		return res
+	}
 	if err := r.connect(); err != nil {
+		if sc.FailFirst != "" {
+			r.problem("C06", "connect-after-failed-connect", "after a Connect that failed ("+sc.FailFirst+") the next Connect returned "+err.Error())
+			return res
+		}
 		res.Skipped = "connect failed: " + err.Error()
 		return res
 	}
@@ -705,6 +764,11 @@ func Families(tier string, rng *rand.Rand) []Scenario {
 	}
 	add(Scenario{Causes: []string{"eof"}, DiscClose: true, Reconnect: "handler", Cycles: 2})
 	add(Scenario{Causes: []string{"close"}, DiscClose: true, Reconnect: "other", Cycles: 2})
+	// a Connect that fails (refused dial, failed TLS handshake) before the session proper
+	for _, ff := range []string{"dial", "tls"} {
+		add(Scenario{Causes: []string{"close"}, In: 3, FailFirst: ff})
+		add(Scenario{Causes: []string{"eof"}, FailFirst: ff, Tracking: true, CtxDial: true})
+	}
 	// user goroutines in the middle of a burst when the connection ends, then a reconnect: nothing queued
 	// on the old connection may show up on the new one
 	for _, rc := range []string{"handler", "other"} {
@@ -804,7 +868,7 @@ func RunLife(args []string) int {
 		// ConnTrace.tla follows user senders within one connection; a user goroutine that keeps
 		// sending across a reconnect, and a Close issued from inside the DISCONNECTED handler, are
 		// checked by the scenario's own oracle only
-		traced := tr != nil && !(sc.OutBy == "user" && sc.Reconnect != "none" && sc.Reconnect != "") && !sc.DiscClose
+		traced := tr != nil && !(sc.OutBy == "user" && sc.Reconnect != "none" && sc.Reconnect != "") && !sc.DiscClose && sc.FailFirst == ""
 		if traced {
 			tr.Reset(qcap, sc.Ping)
 		}
